@@ -320,3 +320,381 @@ class StoreFiltered(Contract):
 
 
 UNITS += [StoreFiltered(f) for f in ("deform", "image", "contour", "trace")]
+
+
+# ---------------------------------------------------------------- Export.hdf5 (scenario)
+class StoreFilteredCallee(Contract):
+    """callee form of StoreFiltered (verified above)"""
+    name = "store_filtered_feature"
+
+    def __call__(self, interp, rtdc_writer=None, feat=None, data=None, filtarr=None):
+        ctx = interp.ctx
+        S = where_idx(interp, filtarr)
+        interp.cur_frame.unit.__dict__.setdefault("_filtarrs", []).append(SArr(filtarr.n, filtarr.a, "bool"))
+        if not ctx.decide(wrap(S.n > 0)):
+            return None
+        darr = data if isinstance(data, SArr) else npmodel.as_arr(interp, data)
+        sel = models.arr_new(interp, S.n, lambda k: darr.sel(S.sel(k)), darr.kind, darr.dtype)
+        sel.item_shape = getattr(darr, "item_shape", ())
+        StoreFeatureCallee(with_summaries=False)(interp, rtdc_writer, feat=feat, data=sel)
+        return None
+
+
+class WriterCtor(Contract):
+    """RTDCWriter(path, mode="append", ...): a writer on a new, empty file"""
+    name = "RTDCWriter"
+    trusted = True
+
+    def __call__(self, interp, path, mode="append", compression_kwargs=None, **kw):
+        u = interp.cur_frame.unit
+        events = new_group(interp.ctx, name="/events")
+        h5 = new_group(interp.ctx, members={"events": events}, name="/")
+        hw = interp.ctx.obj("Writer", {"h5file": h5, "mode": mode, "path": path, "_meta": None, "_logs": {},
+                                       "_tables": {}, "_basins": []}, name="hw")
+        u._hw = hw
+        return hw
+
+
+class WriterExit(Contract):
+    """RTDCWriter.__exit__: rectify_metadata (C01: event count := number of stored events,
+    ...) if the events group is not empty, then the file is closed"""
+    name = "Writer.__exit__"
+    trusted = True
+
+    def __call__(self, interp, hw, *a):
+        ev = hw.fields["h5file"].fields["members"]["events"]
+        names = sorted(ev.fields["members"])
+        if names:
+            first = ev.fields["members"][names[0]]
+            if first.clsname == "H5Group":     # trace
+                first = list(first.fields["members"].values())[0]
+            hw.fields["_count_after_exit"] = wrap(first.fields["content"].n)
+        else:
+            m = hw.fields["_meta"] or {}
+            hw.fields["_count_after_exit"] = m.get("experiment", {}).get("event count")
+        hw.fields["_closed"] = True
+        return None
+
+
+class WriterRecord(Contract):
+    trusted = True
+
+    def __init__(self, name, slot):
+        self.name, self.slot = name, slot
+        super().__init__()
+
+    def __call__(self, interp, hw, *a, **k):
+        if self.slot == "_meta":
+            hw.fields["_meta"] = a[0] if a else k.get("meta")
+        elif self.slot == "_basins":
+            hw.fields["_basins"].append(k)
+        else:
+            name = a[0] if a else k.get("name")
+            val = a[1] if len(a) > 1 else (k.get("lines") if "lines" in k else k.get("cmp_array"))
+            key = name if isinstance(name, str) else models.str_term(name)
+            hw.fields[self.slot][key if isinstance(key, str) else str(key)] = val
+        return None
+
+
+class ExpConfig(Contract):
+    trusted = True
+
+    def __init__(self, name, what):
+        self.name, self.what = name, what
+        super().__init__()
+
+    def __call__(self, interp, cfg, key=None):
+        if self.what == "contains":
+            return key in cfg.fields["_d"]
+        return cfg.fields["_d"][key]
+
+
+class ExportHdf5(Contract):
+    """Export.hdf5(path, features, filtered, logs, tables): every requested feature of the
+    output holds exactly the events selected by the filter (all events when not
+    filtered; limited to the common length when feature lengths differ), in order
+    and unchanged; metadata sections, requested logs and tables are carried over;
+    the stored event count equals the number of exported events; a filtered export
+    gets a new run identifier derived from the source's."""
+    path = EXPORT
+    module = EMOD
+    qualname = "Export.hdf5"
+    classes = {"Export": (EXPORT, "Export")}
+    class_modules = {"Export": EMOD}
+    native = {"scalar_feature_exists", "feature_exists", "get_basin_classes"}
+    params = ("self", "path", "features", "filtered", "logs", "tables", "basins", "meta_prefix", "override")
+
+    def __init__(self, fmt, filtered, unequal=False):
+        self.fmt, self.filtered, self.unequal = fmt, filtered, unequal
+        self.name = (f"Export.hdf5[source {fmt}, {'filtered' if filtered else 'unfiltered'}"
+                     f"{', unequal feature lengths' if unequal else ''}]")
+        super().__init__()
+        self.callees = {
+            "RTDCWriter": WriterCtor(), "Writer.__exit__": WriterExit(),
+            "Writer.store_metadata": WriterRecord("Writer.store_metadata", "_meta"),
+            "Writer.store_log": WriterRecord("Writer.store_log", "_logs"),
+            "Writer.store_table": WriterRecord("Writer.store_table", "_tables"),
+            "Writer.store_basin": WriterRecord("Writer.store_basin", "_basins"),
+            "Writer.store_feature": StoreFeatureCallee(with_summaries=False),
+            "store_filtered_feature": StoreFilteredCallee(),
+            "Config.__contains__": ExpConfig("Config.__contains__", "contains"),
+            "Config.__getitem__": ExpConfig("Config.__getitem__", "get"),
+            "DS.__getitem__": _DsGet(), "DS.__len__": _DsLen(),
+            "DS.get_measurement_identifier": _DsMeasId(),
+        }
+
+    def inputs(self, ctx):
+        import pathlib
+        self._filtarrs = []
+        N = ctx.int("N", lo=1, inp=True)
+        n_img = ctx.int("N_image", lo=0, inp=True) if self.unequal else N
+        if self.unequal:
+            ctx.assume(n_img.e <= N.e)
+        deform = ctx.arr("deform", "F", n=N.e, inp=True, dtype=np.dtype("float64"))
+        deform.item_shape = ()
+        image = ctx.arr("image", "elem", n=to_z3(n_img), inp=True, dtype=np.dtype("uint8"))
+        image.item_shape = (ctx.int("h", lo=1), ctx.int("w", lo=1))
+        filt = ctx.arr("filter_all", "bool", n=N.e, inp=True)
+        count0 = ctx.int("source_event_count")
+        cfg = ctx.obj("Config", {"_d": {
+            "experiment": {"sample": "s", "event count": count0, "run index": 1},
+            "imaging": {"pixel size": 0.34}, "setup": {"medium": "CellCarrier"},
+            "user": {"my key": 5}, "filtering": {"enable filters": True}}})
+        ds = ctx.obj("DS", {"_N": N, "_feats": {"deform": deform, "image": image}, "config": cfg,
+                            "format": self.fmt, "features_innate": ["deform", "image"],
+                            "filter": ctx.obj("Filter", {"all": filt}),
+                            "logs": {"acq": "LOGLINES"}, "tables": {"tab": "TABLE"}, "basins": [],
+                            "_meas_id": "run-0001", "path": pathlib.Path("/data/src.rtdc")}, name="ds")
+        self._g = NS(dict(N=N, n_img=n_img, deform=deform, image=image,
+                          filt=SArr(filt.n, filt.a, "bool"), ds=ds, count0=count0))
+        return {"self": ctx.obj("Export", {"rtdc_ds": ds}, name="self"), "path": "/out/exported.rtdc",
+                "features": ["image", "deform", "deform"], "filtered": self.filtered, "logs": True,
+                "tables": True, "basins": False, "meta_prefix": "src_", "override": True}
+
+    def sel_mask(self, ctx, k):
+        g = self._g
+        lim = to_z3(g.n_img) if self.unequal else g.N.e
+        base = g.filt.sel(k) if self.filtered else z3.BoolVal(True)
+        return z3.And(k >= 0, k < g.N.e, base, k < lim)
+
+    def ensures(self, ctx, old, a, result):
+        g = self._g
+        hw = getattr(self, "_hw", None)
+        if hw is None:
+            return [("a writer was opened on the output path", z3.BoolVal(False))]
+        fi = NS({"ctx": ctx, "heap_write": lambda o: None})
+        mask = models.arr_new(fi, g.N.e, lambda k: self.sel_mask(ctx, k), "bool")
+        mask = SArr(mask.n, mask.a, "bool")
+        S = where_idx(fi, mask)
+        for fa in self.__dict__.get("_filtarrs", []):
+            ctx.assume(models.where_ext(fi, fa, mask))      # N-WHERE-EXT instances
+        posts = [("the writer works on the requested path in append mode on a new file and is closed",
+                  z3.BoolVal(str(hw.fields["path"]) == "/out/exported.rtdc" and hw.fields["mode"] == "append"
+                             and hw.fields.get("_closed") is True))]
+        ev = hw.fields["h5file"].fields["members"]["events"]
+        j = z3.Int("j!p")
+        for f, src in (("deform", g.deform), ("image", g.image)):
+            dsf = ev.fields["members"].get(f)
+            if dsf is None:
+                posts.append((f"{f}: nothing is stored only if nothing is selected", S.n == 0))
+                continue
+            c = dsf.fields["content"]
+            posts.append((f"{f}: exactly the selected events, in order, unchanged",
+                          z3.And(c.n == S.n, z3.ForAll([j], z3.Implies(z3.And(j >= 0, j < S.n),
+                                                                       c.sel(j) == src.sel(S.sel(j)))))))
+        posts.append(("only the requested features are written",
+                      z3.BoolVal(set(ev.fields["members"]) <= {"deform", "image"})))
+        cnt = hw.fields.get("_count_after_exit")
+        posts.append(("the stored event count equals the number of exported events",
+                      z3.BoolVal(False) if cnt is None else to_z3(cnt) == S.n))
+        meta = hw.fields["_meta"] or {}
+        posts.append(("metadata sections and user entries are carried over",
+                      z3.BoolVal(meta.get("imaging") == {"pixel size": 0.34} and meta.get("setup") == {"medium": "CellCarrier"}
+                                 and meta.get("user") == {"my key": 5} and "filtering" not in meta
+                                 and meta.get("experiment", {}).get("sample") == "s")))
+        rid = meta.get("experiment", {}).get("run identifier")
+        posts.append(("a filtered export gets a new run identifier '<source id>-xxxx'; an unfiltered one none",
+                      z3.BoolVal((isinstance(rid, str) and rid.startswith("run-0001-") and len(rid) == 13)
+                                 if self.filtered else rid is None)))
+        posts.append(("logs and tables of the source are carried over under the prefix",
+                      z3.BoolVal(hw.fields["_logs"].get("src_acq") == "LOGLINES"
+                                 and hw.fields["_tables"].get("src_tab") == "TABLE")))
+        return posts
+
+
+class _DsGet(Contract):
+    name = "DS.__getitem__"
+    trusted = True
+
+    def __call__(self, interp, ds, feat):
+        return ds.fields["_feats"][feat]
+
+
+class _DsLen(Contract):
+    name = "DS.__len__"
+    trusted = True
+
+    def __call__(self, interp, ds):
+        return ds.fields["_N"]
+
+
+class _DsMeasId(Contract):
+    name = "DS.get_measurement_identifier"
+    trusted = True
+
+    def __call__(self, interp, ds):
+        return ds.fields["_meas_id"]
+
+
+UNITS += [ExportHdf5("hdf5", True), ExportHdf5("hdf5", False), ExportHdf5("dict", True),
+          ExportHdf5("hdf5", True, unequal=True)]
+TRUSTED += [WriterCtor(), WriterExit()]
+
+
+# ---------------------------------------------------------------- replay on the real code
+def replay(unit_name, inp, obligation=""):
+    import pathlib, tempfile, warnings
+    import h5py, numpy as np
+    import dclab
+    import dclab.rtdc_dataset.writer as w
+    import dclab.rtdc_dataset.export as e
+    n = int(inp.get("N", 7))
+    n = max(1, min(n, 40))
+    filt = [bool(x) for x in (inp.get("filter_all") or inp.get("filtarr") or [])][:n]
+    filt = np.array(filt + [True] * (n - len(filt)), dtype=bool)
+    if inp.get("empty"):
+        filt[:] = False
+    filtered = "unfiltered" not in unit_name
+    rng = np.random.RandomState(5)
+    old_w, old_e = w.version, e.version
+    w.version = e.version = "0.60.0"
+    try:
+        with tempfile.TemporaryDirectory(prefix="c02_") as td, warnings.catch_warnings():
+            warnings.simplefilter("ignore")
+            td = pathlib.Path(td)
+            data = {"deform": rng.uniform(0.01, 0.2, n), "area_um": rng.uniform(50, 150, n),
+                    "image": rng.randint(1, 200, size=(n, 5, 6)).astype(np.uint8),
+                    "trace": {"fl1_raw": rng.randint(-50, 50, size=(n, 8)).astype(np.int16)}}
+            src = dclab.new_dataset(data)
+            src.config["experiment"]["sample"] = "s"
+            src.config["experiment"]["run identifier"] = "run-0001"
+            src.config["imaging"]["pixel size"] = 0.34
+            if "source hdf5" in unit_name or inp.get("via_hdf5"):
+                p0 = td / "src.rtdc"
+                src.export.hdf5(p0, features=["deform", "area_um", "image", "trace"], filtered=False)
+                src = dclab.new_dataset(p0)
+            src.filter.manual[:] = filt
+            src.apply_filter()
+            out = td / "out.rtdc"
+            src.export.hdf5(out, features=["image", "deform", "trace", "deform"], filtered=filtered)
+            sel = np.where(filt)[0] if filtered else np.arange(n)
+            with h5py.File(out) as h5:
+                ev = h5["events"] if "events" in h5 else {}
+                cnt = h5.attrs.get("experiment:event count")
+                for f in ("deform", "image"):
+                    if f not in ev:
+                        if len(sel):
+                            return {"failed": True, "detail": f"{f} missing in the export of {len(sel)} events"}
+                        continue
+                    got = ev[f][:]
+                    want = data[f][sel]
+                    if got.shape != want.shape or not np.allclose(got, want):
+                        return {"failed": True, "detail": f"{f}: exported events differ from the selection "
+                                                          f"{sel.tolist()} (got {len(got)} events)"}
+                if "trace" in ev and not np.array_equal(ev["trace"]["fl1_raw"][:], data["trace"]["fl1_raw"][sel]):
+                    return {"failed": True, "detail": "trace: exported events differ from the selection"}
+                if cnt is None or int(cnt) != len(sel):
+                    return {"failed": True, "detail": f"stored event count {cnt} but {len(sel)} events were "
+                                                      f"exported (filter {filt.astype(int).tolist()})"}
+        return {"failed": False, "detail": "export holds exactly the selection"}
+    finally:
+        w.version, e.version = old_w, old_e
+
+
+def bounded_inputs(unit_name, rng):
+    import itertools
+    yield {"N": 5, "empty": True}
+    for n in (1, 3, 12, 25):
+        for pat in ([True], [False, True], [True, True, False], [False]):
+            yield {"N": n, "filter_all": (pat * n)[:n]}
+            yield {"N": n, "filter_all": (pat * n)[:n], "via_hdf5": True}
+
+
+class ExportTsv(Contract):
+    """Export.tsv(path, features, filtered): the table written has one column per
+    requested scalar feature (lower-cased, sorted, without duplicates), each column
+    holding the feature restricted to the filter (all events when not filtered),
+    written with '%.10e' and tab as delimiter; non-scalar features are refused."""
+    path = EXPORT
+    module = EMOD
+    qualname = "Export.tsv"
+    classes = {"Export": (EXPORT, "Export")}
+    class_modules = {"Export": EMOD}
+    native = {"get_feature_label"}
+    params = ("self", "path", "features", "meta_data", "filtered", "override")
+
+    def __init__(self, filtered):
+        self.filtered = filtered
+        self.name = f"Export.tsv[{'filtered' if filtered else 'unfiltered'}]"
+        super().__init__()
+
+        class AsDict(Contract):
+            name = "Config.as_dict"
+            trusted = True
+
+            def __call__(s, interp, cfg):
+                return {"experiment": {"sample": "s"}}
+        class Label(Contract):
+            name = "get_feature_label"
+            trusted = True
+
+            def __call__(s, interp, feat, rtdc_ds=None):
+                return "label of " + str(feat)
+        self.callees = {"DS.__getitem__": _DsGet(), "Config.as_dict": AsDict(), "get_feature_label": Label()}
+
+    def inputs(self, ctx):
+        N = ctx.int("N", lo=0, inp=True)
+        mk = lambda nm: ctx.arr(nm, "F", n=N.e, inp=True, dtype=np.dtype("float64"))   # noqa
+        deform, area = mk("deform"), mk("area_um")
+        for a_ in (deform, area):
+            a_.item_shape = ()
+        filt = ctx.arr("filter_all", "bool", n=N.e, inp=True)
+        ds = ctx.obj("DS", {"_N": N, "_feats": {"deform": deform, "area_um": area},
+                            "features_scalar": ["area_um", "deform"], "config": ctx.obj("Config", {}),
+                            "filter": ctx.obj("Filter", {"all": filt})}, name="ds")
+        self._g = NS(dict(N=N, deform=deform, area=area, filt=SArr(filt.n, filt.a, "bool")))
+        return {"self": ctx.obj("Export", {"rtdc_ds": ds}, name="self"), "path": "/out/table.tsv",
+                "features": ["Deform", "area_um", "deform"], "meta_data": None, "filtered": self.filtered,
+                "override": True}
+
+    def ensures(self, ctx, old, a, result):
+        g = self._g
+        log = ctx.__dict__.get("fs_log", [])
+        sv = [x for x in log if x[0] == "savetxt"]
+        if len(sv) != 1:
+            return [("the table is written once with np.savetxt", z3.BoolVal(False))]
+        _, fd, X, fmt, delim = sv[0]
+        ok = isinstance(X, models.Arr2D) and X.transposed and len(X.rows) == 2
+        posts = [("one column per requested scalar feature (sorted, no duplicates), events as rows",
+                  z3.BoolVal(bool(ok))),
+                 ("values are written with 11 significant digits ('%.10e') and tabs",
+                  z3.BoolVal(fmt == "%.10e" and delim == "\t")),
+                 ("only the requested output path is written",
+                  z3.BoolVal(all(str(x[1]) == "/out/table.tsv" for x in log if x[0] in ("open", "write"))))]
+        if ok:
+            fi = NS({"ctx": ctx, "heap_write": lambda o: None})
+            S = where_idx(fi, g.filt)
+            j = z3.Int("j!p")
+            for col, src, nm in ((X.rows[0], g.area, "area_um"), (X.rows[1], g.deform, "deform")):
+                if self.filtered:
+                    posts.append((f"column {nm} holds the feature restricted to the filter, in order",
+                                  z3.And(col.n == S.n, z3.ForAll([j], z3.Implies(z3.And(j >= 0, j < S.n),
+                                                                                 col.sel(j) == src.sel(S.sel(j)))))))
+                else:
+                    posts.append((f"column {nm} holds all events of the feature",
+                                  z3.And(col.n == g.N.e, z3.ForAll([j], z3.Implies(z3.And(j >= 0, j < col.n),
+                                                                                   col.sel(j) == src.sel(j))))))
+        return posts
+
+
+UNITS += [ExportTsv(True), ExportTsv(False)]
